@@ -17,7 +17,9 @@ def main():
             ctx = Ctx("C10", {})
             L, R, C = entries.build(case)
             try:
-                df = entries.run(ctx, case, L, R, C, n_jobs=1)
+                import contextlib
+                with contextlib.redirect_stdout(sys.stderr):   # stdout is the protocol channel
+                    df = entries.run(ctx, case, L, R, C, n_jobs=1)
             except Violation as v:
                 out.write(canon.dumps({"violation": str(v)}) + "\n")
                 out.flush()
